@@ -517,7 +517,7 @@ func (g *gen) field(fc *fieldCtx, sh shape) *fldp {
 	case tMessage:
 		fd.Type = descriptorpb.FieldDescriptorProto_TYPE_MESSAGE.Enum()
 		if sh == shapeMap {
-			name = g.fieldName(fc, vocab, func(n string) bool { return fc.scope.free(mapEntryName(n)) && mapEntryName(n) != n })
+			name = g.fieldName(fc, vocab, func(n string) bool { return isIdent(mapEntryName(n)) && fc.scope.free(mapEntryName(n)) && mapEntryName(n) != n })
 			entry := g.mapEntry(fc, name, getFS)
 			fd.TypeName = proto.String("." + join(fc.prefix, entry.GetName()))
 			*fc.nested = append(*fc.nested, entry)
